@@ -26,11 +26,24 @@ fn plan<T: Subj>(tier: Tier) -> Plan<T> {
     p.with_aux(Aux::K(21), degrees).with_aux(Aux::K(22), vec![2, 3, 8, 10, 16, 36]).with_aux(Aux::BitIdx, idx)
 }
 
+fn fwd_plan<T: Subj>(tier: Tier) -> Plan<T> {
+    let mut p = plans::panic_plan::<T>(tier).with_aux(Aux::K(22), vec![2, 3, 8, 10, 16, 36]);
+    if T::BITS == 8 {
+        // pairs from the boundary subset, all values in the first register
+        p.b = p.b.iter().step_by(5).cloned().collect();
+    }
+    p.c = p.a.iter().step_by((p.a.len() / 6).max(1)).cloned().collect();
+    p
+}
+
 macro_rules! cfg {
     ($run:expr, $fam:ident, $n:literal, $z:ty) => {{
         let tier = $run.tier;
         $run.explore(&t::$fam::u::<$n, $z>(), &plan::<$fam::U<$n>>(tier));
         $run.explore(&t::$fam::i::<$n, $z>(), &plan::<$fam::I<$n>>(tier));
+        // forwarders: differential against the inherent methods on the (panic-heavy) reduced plan
+        $run.explore(&t::$fam::u_fwd::<$n, $z>(), &fwd_plan::<$fam::U<$n>>(tier));
+        $run.explore(&t::$fam::i_fwd::<$n, $z>(), &fwd_plan::<$fam::I<$n>>(tier));
     }};
 }
 
